@@ -1,10 +1,10 @@
 """C13 extension (slice imageproof).
 
 1. `preimage` with a renaming in which two keys share a value (`{a: b, c: b}`): it meets the
-   literal preconditions of C13 (partners adjacent, keys disjoint from values, target independent
-   of the values) and still differs from quantify(trans & rename(target)) -- finding F5b
-   (Lean: `DD.C13_preimage_needs_injective`).  A deterministic witness runs first, then generated
-   dictionaries.  Violations are tagged `call='preimage', rename_not_injective=True`.
+   literal preconditions of C13 (keys disjoint from values) and must equal
+   quantify(trans & rename(target)) -- the former finding F5b, repaired (Lean: `DD.C13_preimage`;
+   the fused recursion is not used for such a renaming).  The deterministic witness runs first,
+   then generated dictionaries, with targets independent of the shared value and not.
 2. Correspondence-only sessions (no oracle): `image` / `preimage` with ARBITRARY renamings
    (not injective, not adjacent, overlapping, levels out of range, undeclared names as keys or
    values), to pin the model's error behaviour to the code's.
@@ -31,7 +31,7 @@ def _noninj_case(ctx, s, sp, bld, b, allnames, order, tr, tg, ren, q, fa):
             'two keys share a value', dict(
                 order=order, trans=tr, target=tg, rename=ren, qvars=q, forall=fa, got=ans,
                 expected_tt=want,
-                tags=dict(call='preimage', rename_not_injective=True)))
+                tags=dict(call='preimage')))
 
 
 def extra_C13(ctx):
@@ -64,7 +64,9 @@ def extra_C13(ctx):
         b = s.mgr(0)
         for _ in range(6):
             tr = rng.randrange(sp.full + 1)
-            tg = sp.cof(rng.randrange(sp.full + 1), v, rng.randint(0, 1))
+            tg = rng.randrange(sp.full + 1)
+            if rng.random() < 0.5:
+                tg = sp.cof(tg, v, rng.randint(0, 1))
             q = [n for n in allnames if (n == v and rng.random() < 0.8) or rng.random() < 0.3]
             q = sorted(set(q))
             _noninj_case(ctx, s, sp, bld, b, allnames, order, tr, tg, ren, q, rng.randint(0, 1))
@@ -106,6 +108,20 @@ def extra_C13(ctx):
         ctx.case(('arbitrary-renaming', tuple(order), k))
         ctx.add_session(s, SECTIONS_L2, f'C13 arbitrary renamings {order}')
         s.close()
+    # ---- 3. correspondence only: a target / trans that is not a node.  The test `fused` reads
+    # the support of the target (KeyError) before the recursion looks at `trans`: with
+    # `trans = FALSE` the call used to return FALSE without touching the target.
+    for order in (['a', 'b', 'c'], ['b', 'a', 'c'], ['a', 'c', 'b']):
+        s = fresh(ctx, order)
+        va = s.val(s.op(0, 'var', 'a'))
+        for tr, tg in ((-1, 9999), (1, 9999), (-1, -9999), (9999, va), (9999, 9999), (va, 9999)):
+            for rs in ('n:a=n:b', 'n:a=n:c', 'n:a=n:b,n:c=n:b', ''):
+                s.op(0, 'preimage', tr, tg, rs, 'n:b', 0)
+                s.op(0, 'image', tr, tg, rs, 'n:a', 0)
+                ctx.evaluations += 2
+        ctx.case(('not-a-node', tuple(order)))
+        ctx.add_session(s, SECTIONS_L2, f'C13 operands that are not nodes {order}')
+        s.close()
 
 
 def check_C13(ctx):
@@ -117,7 +133,8 @@ REGISTRY = {
     'C13': (check_C13,
             'exhaustive one primed/unprimed pair (16x16 functions, both orders, all qvars, both '
             'quantifiers, names/levels); sampled 2-3 pairs, adjacent and (image) arbitrary orders; '
-            'preimage with renamings in which two keys share a value (witness + generated); '
+            'preimage with renamings in which two keys share a value (witness + generated), targets '
+            'depending on the rename values; '
             'correspondence-only image/preimage with arbitrary renamings (not injective, not '
             'adjacent, overlapping, out-of-range levels, undeclared names)'),
 }
